@@ -347,7 +347,7 @@ func (r *runner) Op(t []string) string {
 // ---- generator --------------------------------------------------------------
 
 func gen(r *h.Rand, tier string, emit func([]string)) {
-	ncases := 420
+	ncases := 220
 	if tier == "thorough" {
 		ncases = 6000
 	}
